@@ -119,6 +119,35 @@ pub fn exec(case: &Value) -> Vec<Value> {
             json!({"kind": kind, "g": g, "nbytes": s.len(), "ws": flags(&s), "cleanws": flags(&cl), "removews": flags(&rm), "fullws": flags(&fu),
                    "wb": wb.iter().map(|(a, z)| json!([a, z])).collect::<Vec<_>>()})
         }
+        "corruptlong" => {
+            // hundreds of thousands of characters with one probability 0: "never" must hold at every one of them.  The record
+            // carries the word ends (number of non-whitespace characters in front of every whitespace run) of text and output.
+            use text_utils::data::preprocessing::{preprocessing, Part, PreprocessingFnConfig};
+            use text_utils::data::{TextDataInfo, TrainData};
+            let wlen = get_u(case, "wlen").max(1);
+            let text = vec!["ab".repeat(wlen / 2 + 1)[..wlen].to_string(); get_u(case, "words")].join(" ");
+            let (iw, dw) = (case["iw"].as_f64().unwrap_or(0.0), case["dw"].as_f64().unwrap_or(0.0));
+            let seed = case.get("seed").and_then(|x| x.as_u64()).unwrap_or(0);
+            let ends = |t: &str| -> Vec<usize> {
+                let (mut n, mut out, mut in_ws) = (0usize, vec![], false);
+                for c in t.chars() {
+                    if c.is_whitespace() { if !in_ws { out.push(n); } in_ws = true; } else { n += 1; in_ws = false; }
+                }
+                out
+            };
+            let out = match guard(|| {
+                let f = preprocessing(PreprocessingFnConfig::WhitespaceCorruption(Part::Input, iw, dw, g));
+                f(TrainData::new(text.clone(), None), TextDataInfo { seed, ..Default::default() }).map(|(d, _)| d.verif_input().to_string())
+            }) {
+                Ok(Ok(o)) => o,
+                Ok(Err(e)) => { fail("corrupt", format!("err:{e}")); String::new() }
+                Err(m) => { fail("corrupt", m); String::new() }
+            };
+            let same = out.chars().filter(|c| !c.is_whitespace()).eq(text.chars().filter(|c| !c.is_whitespace()));
+            let cls = |p: f64| if p <= 0.0 { "zero" } else if p >= 1.0 { "one" } else { "mid" };
+            json!({"kind": kind, "g": g, "n": text.chars().count(), "tends": ends(&text), "oends": ends(&out), "same_content": same,
+                   "iw": cls(iw), "dw": cls(dw), "seed": seed})
+        }
         "pair" => {
             let (f0, t0) = (text_of(case, "from", "fslots"), text_of(case, "to", "tslots"));
             refill(&mut b1, &f0, g);
@@ -299,6 +328,12 @@ pub fn gen(seed: u64, n: usize) -> Vec<Value> {
                 let len = clusters(&s, g).len();
                 let ops: Vec<&str> = (0..len).map(|_| ["k", "k", "i", "d"][rng.random_range(0..4)]).collect();
                 out.push(json!({"kind": "repair", "s": s, "ops": ops, "g": g}));
+            }
+            _ if i == 7 || i == 11 => {
+                // two long texts per run: one with delete probability 0, one with insert probability 0
+                let (iw, dw) = if i == 7 { (0.5, 0.0) } else { (0.0, 0.5) };
+                out.push(json!({"kind": "corruptlong", "wlen": if i == 7 { 2 } else { 12 }, "words": if i == 7 { 130000 } else { 25000 }, "iw": iw, "dw": dw,
+                                "seed": rng.random::<u32>(), "g": false}));
             }
             _ => {
                 let p = [0.0, 0.3, 1.0];
